@@ -717,9 +717,11 @@ class Interp:
                 if attr == "num_qubits":
                     return o.width if o.width is not None else Sym("attr", self.sym_of(base), "num_qubits")
                 if attr == "metadata":
+                    # Qiskit >= 1.0: metadata is always a dictionary owned by the circuit (Q1: copied by compose)
                     if "metadata" not in o.meta:
-                        o.meta["metadata"] = Sym("attr", self.sym_of(base), "metadata", maybe_none=True)
-                    return self.refine(o.meta["metadata"])
+                        d = self.alloc("dict", origin=o.origin if o.origin[0] != "fresh" else None, site=f"metadata of circuit #{o.oid}")
+                        o.meta["metadata"] = Ref(d.oid)
+                    return o.meta["metadata"]
                 if attr in ("data", "qubits", "clbits", "name", "num_clbits", "global_phase"):
                     return Sym("attr", self.sym_of(base), attr)
                 return Bound(base, attr)
